@@ -197,6 +197,7 @@ func (in *Interp) divrem(o Op, x, y *Term) *Term {
 	v := in.freshVar(x.w, "op")
 	in.opaque[key] = v
 	if o == OURem {
+		in.varBound[v.id] = y.val - 1
 		in.assume(ts.Cmp(OULt, v, y), "opaque urem range")
 	} else {
 		in.assume(ts.Cmp(OULe, v, x), "opaque udiv range")
